@@ -209,3 +209,51 @@ Proof.
   - split; [repeat constructor; try reflexivity; discriminate|].
     split; [unfold plain_key; repeat split; try discriminate; reflexivity|reflexivity].
 Qed.
+
+(* ---- name[new()] / name[0] on a fresh name creates a one-element list --------------------------- *)
+Lemma sni_lastidx : split_name_index s_lastidx = Ok ([], IdxStr s_last).
+Proof. reflexivity. Qed.
+Lemma n0eval_last : n0eval s_last = EvInt (-1).
+Proof. reflexivity. Qed.
+
+Lemma add_fresh_list f root q c kvs x n si :
+  split_name_index x = Ok (n, IdxStr si) -> n <> [] -> si <> [] ->
+  pstr_eqb si s_new || pstr_eqb si s_zero = true ->
+  resolve root q = Some (Dict c kvs) -> lookup n kvs = None ->
+  add (S f) root q None [x] =
+  Ok (replace_at root q (Dict c (update n (Lst true [Leaf SNone]) kvs)), q ++ [PKey n], s_lastidx).
+Proof.
+  intros Hs Hne Hsi Hnew Hq Hl. cbn [add]. rewrite Hs. cbn [bind]. rewrite Hq.
+  destruct n as [|a b]; [congruence|]. rewrite Hl.
+  destruct si as [|s0 s1]; [congruence|]. cbn [idx_truthy nonempty]. now rewrite Hnew.
+Qed.
+
+Theorem setitem_creates_list fuel root x v toks p c kvs y n si :
+  has_path_char x = true -> tokenize x = toks ++ [y] ->
+  walk root toks p (Dict c kvs) ->
+  split_name_index y = Ok (n, IdxStr si) -> plain_key n -> si <> [] ->
+  pstr_eqb si s_new || pstr_eqb si s_zero = true ->
+  lookup n kvs = None ->
+  2 * length toks + 2 <= fuel ->
+  setitem_core fuel root x v = Ok (replace_at root p (Dict c (update n (Lst true [v]) kvs))).
+Proof.
+  intros Hc Ht Hw Hs Hpk Hsi Hnew Hl Hf. unfold setitem_core. rewrite Hc, Ht.
+  destruct (find_walk_prefix true root toks p (Dict c kvs) Hw [y] ltac:(congruence) fuel root [] s_root ltac:(lia))
+    as [fstr' [fuel' [H1 [H2 H3]]]].
+  rewrite H3. destruct fuel' as [|f']; [lia|].
+  rewrite (find_key_missing true f' root y [] (PAt ([] ++ p)) c kvs fstr' n (IdxStr si) Hs Hpk Hl).
+  cbn [bind rest_falsy f_rest f_par f_slot app].
+  pose proof (walk_resolve _ _ _ _ Hw) as Hp. destruct Hpk as [Hne _].
+  destruct fuel as [|f]; [lia|].
+  rewrite (add_fresh_list f root p c kvs y n si Hs Hne Hsi Hnew Hp Hl). cbn [bind].
+  set (root' := replace_at root p (Dict c (update n (Lst true [Leaf SNone]) kvs))).
+  assert (Hq' : resolve root' (p ++ [PKey n]) = Some (Lst true [Leaf SNone])).
+  { unfold root'. rewrite resolve_app, (resolve_replace_same root p _ _ Hp). cbn. now rewrite lookup_update_same. }
+  unfold write_slot. rewrite sni_lastidx. cbn [bind pget nonempty]. rewrite Hq', n0eval_last.
+  cbn [length norm_idx set_nth pset]. 
+  change (norm_idx 1 (-1)) with (Some 0). cbn [set_nth].
+  unfold root'.
+  rewrite (replace_at_app _ p [PKey n] _ _ (resolve_replace_same root p _ _ Hp)).
+  cbn [replace_at]. rewrite lookup_update_same. cbn [replace_at].
+  rewrite (replace_replace_same root p _ _ _ Hp). now rewrite update_update_same.
+Qed.
